@@ -242,13 +242,19 @@ func (el *eventloop) open(c *conn) error {
 	}
 	if out != nil {
 		if err := c.open(out); err != nil {
-			return el.close(c, os.NewSyscallError("write", err))
+			if err = el.close(c, os.NewSyscallError("write", err)); err != nil {
+				return err
+			}
+			return el.handleAction(c, action) // the action of OnOpen still counts, e.g. Shutdown
 		}
 	}
 
 	if !c.outboundBuffer.IsEmpty() && !el.engine.opts.EdgeTriggeredIO {
 		if err := el.poller.ModReadWrite(&c.pollAttachment, false); err != nil {
-			return el.close(c, err)
+			if err = el.close(c, err); err != nil {
+				return err
+			}
+			return el.handleAction(c, action)
 		}
 	}
 
